@@ -170,16 +170,22 @@ def run(ctx):
     res.floor("R6.7", "plain-default react in add_default_value", len(B), 1)
     heads = [c for c in ad.calls_to(r"Iterator>?::next$") if re.search(r"default_vals_ifs", expr(ad, c.args[0]))]
     res.floor("R6.7", "loop over default_vals_ifs", len(heads), 1)
+    # the condition's truth value: the local `add`, or (single-definition form) `matcher.get(id).is_some_and(|a| ..)`, false when absent by definition
+    ADD = "T:add"
+    if A and not any(g == "T:add" for g in guard_strs(ad, A[0].bb)):
+        alt = [g for g in guard_strs(ad, A[0].bb) if re.match(r"^T:is_some_and\(get\(matcher,", g)]
+        if alt:
+            ADD = alt[0]
     if A and B and heads:
-        S = [i for i in ad.reachable(0) if "T:add" in guard_strs(ad, i)]
+        S = [i for i in ad.reachable(0) if ADD in guard_strs(ad, i)]
         res.floor("R6.7", "blocks on the `add` edge", len(S), 1)
         leak = [i for i in S if B[0].bb in ad.reachable(i) or heads[0].bb in ad.reachable(i)]
         res.check(not leak, "R6.7", "first-match-wins", A[0].where(), "after a matching condition neither further conditions nor the plain default are applied",
                   "after a matching conditional default the %s is still reachable: an argument can receive more than one default" % ("plain default" if any(B[0].bb in ad.reachable(i) for i in S) else "next condition"))
-        res.check(all("T:add" in guard_strs(ad, c.bb) for c in A), "R6.7", "conditional-only-on-match", A[0].where(), "conditional default applied only when its condition holds", "conditional default applied without its condition")
+        res.check(all(ADD in guard_strs(ad, c.bb) for c in A), "R6.7", "conditional-only-on-match", A[0].where(), "conditional default applied only when its condition holds", "conditional default applied without its condition")
     adds = ad.locals_named("add")
     absent = [i for i, j, s_ in ad.stmts() if s_["k"] == "assign" and s_["place"] in adds and any(re.match(r"^(!V1|V0):get\(matcher,", g) for g in guard_strs(ad, i))]
-    res.check(bool(absent) and all(op_int(s_["rv"]["op"]) == 0 for i, j, s_ in ad.stmts() if i in absent and s_["k"] == "assign" and s_["place"] in adds and s_["rv"]["k"] == "use"),
+    res.check(ADD.startswith("T:is_some_and(") or bool(absent) and all(op_int(s_["rv"]["op"]) == 0 for i, j, s_ in ad.stmts() if i in absent and s_["k"] == "assign" and s_["place"] in adds and s_["rv"]["k"] == "use"),
               "R6.7", "condition-false-when-absent", ad.where(), "a condition on an argument without matches is false", "a conditional default fires although the argument it depends on is not in the matches")
 
 
